@@ -252,5 +252,5 @@ func runC13(c *Ctx) {
 			return "ok", nil
 		}, Describe: func(idx []int) any { return sub[idx[0]].Name }}
 	c.R.Assume("GC events are explicit (runtime.GC twice) and the process runs with GODEBUG=clobberfree=1 so that a freed object is overwritten deterministically")
-	runScenarios(c, p1, p2, p3)
+	runScenarios(c, p1, p2, p3, corpusReadback(c, "corpus construction: FrozenView(Freeze())", "Freeze"))
 }
